@@ -5,7 +5,7 @@ mod models;
 mod panic;
 
 use proc_macro2::{Ident, Span};
-use syn::{Data, DeriveInput, GenericParam, Generics, Meta};
+use syn::{ext::IdentExt, Data, DeriveInput, GenericParam, Generics, Meta};
 
 use super::TraitHandler;
 use crate::Trait;
@@ -40,8 +40,8 @@ fn hasher_ident(generics: &Generics) -> Ident {
     let mut name = String::from("H");
 
     while generics.params.iter().any(|param| match param {
-        GenericParam::Type(ty) => ty.ident == name,
-        GenericParam::Const(c) => c.ident == name,
+        GenericParam::Type(ty) => ty.ident.unraw() == name,
+        GenericParam::Const(c) => c.ident.unraw() == name,
         GenericParam::Lifetime(_) => false,
     }) {
         name.push('H');
